@@ -372,7 +372,8 @@ theorem translatePlain_tbl (o : Opts) (hr : o.rename = false) (opsets : List (St
     simp only [hn.dom]
     obtain ⟨v, hv⟩ := Option.isSome_iff_exists.mp hn.ops
     have hq1 : Plain { st with uniq := uniqRun st.uniq n.outs } := plain_uniq hq _
-    simp only [hv, Option.getD_some, translateAttrs_printable n.attrs hn.attrs,
+    have hfl : st.localFns.lookup (cleanup n.op) = none := by rw [hq.fns]; rfl
+    simp only [hv, Option.getD_some, translateAttrs_printable n.attrs hn.attrs, hfl,
       outNames_uniq o hr n.outs 0 st hq hn.outs, translateVarRefs_uniq o hr n.ins _ hq1, renderStmt,
       ← uniqRun_append]
     -- the outputs were printed with the table after the outputs; restate them with the table after the node
@@ -498,80 +499,117 @@ theorem nodesLoop_tbl (o : Opts) (hr : o.rename = false) (hi : o.inlineConst = f
 
 
 
-theorem straightModel_nodes {o : Opts} {m : ModelP} (h : straightModel o m = true) :
+theorem straightModel_nodes {tys : List String} {o : Opts} {m : ModelP} (h : straightModel tys o m = true) :
     ∀ n ∈ m.graph.nodes, StraightNode o m.opsets n := by
   unfold straightModel at h
   simp only [Bool.and_eq_true, List.all_eq_true] at h
   intro n hn
   exact straightNode_spec o m.opsets n (h.1.1.2 n hn)
 
-theorem finalTable_eq (o : Opts) (m : ModelP) :
-    finalTable o m =
-      uniqRun (uniqRun (uniqRun [] (m.graph.nodes.flatMap (reqOfNode o))) m.graph.inputs) m.graph.outputs := by
+theorem finalTable_eq (tys : List String) (o : Opts) (m : ModelP) :
+    finalTable tys o m =
+      uniqRun (uniqRun (uniqRun (reservedTable (reservedNames tys [m.opsets] [])) (m.graph.nodes.flatMap (reqOfNode o)))
+        m.graph.inputs) m.graph.outputs := by
   unfold finalTable reqOrder
   rw [uniqRun_append, uniqRun_append]
 
-theorem tame_start : Tame ({ remaps := [[]] } : St) :=
-  ⟨⟨rfl, fun v => by simp [lookupRemap, List.lookup], rfl⟩, tblInv_nil,
-   fun p h => absurd h (List.not_mem_nil)⟩
+theorem dedup_nodup : ∀ (l : List String), (dedup l).Nodup
+  | [] => List.nodup_nil
+  | x :: xs => by
+    simp only [dedup]
+    split
+    · exact dedup_nodup xs
+    · rename_i h
+      exact List.nodup_cons.mpr ⟨h, dedup_nodup xs⟩
 
-theorem graphProg_tbl (o : Opts) (m : ModelP) (h : straightModel o m = true) (d indent : Nat) :
-    ∃ st', graphProg o (d + 1) m m.funName indent {} =
+theorem reservedTable_vals (res : List String) : (reservedTable res).map (·.2) = res := by
+  unfold reservedTable; simp [List.map_map, Function.comp_def]
+
+theorem mem_reservedTable {res : List String} {p : String × String} (h : p ∈ reservedTable res) : p.2 ∈ res := by
+  unfold reservedTable at h
+  obtain ⟨r, hr, rfl⟩ := List.mem_map.mp h
+  exact hr
+
+/-- the reserved names form a well-formed start table when they pass `reservedOk` -/
+theorem tblInv_reserved {res : List String} (hnd : res.Nodup) (hok : reservedOk res = true) :
+    TblInv (reservedTable res) ∧ NoDash (reservedTable res) := by
+  unfold reservedOk at hok
+  simp only [List.all_eq_true, Bool.and_eq_true, bne_iff_ne, ne_eq, Bool.not_eq_true'] at hok
+  refine ⟨⟨by rw [reservedTable_vals]; exact hnd, ?_, ?_⟩, ?_⟩
+  · intro p hp
+    have := (hok _ (mem_reservedTable hp)).1.2
+    simpa using this
+  · intro p hp; exact (hok _ (mem_reservedTable hp)).1.1
+  · intro p hp
+    have := (hok _ (mem_reservedTable hp)).2
+    simpa using this
+
+theorem tame_start {res : List String} (hnd : res.Nodup) (hok : reservedOk res = true) (X : List String) :
+    Tame ({ remaps := [[]], namesRead := X, uniq := reservedTable res } : St) :=
+  ⟨⟨rfl, fun v => by simp [lookupRemap, List.lookup], rfl, rfl⟩, (tblInv_reserved hnd hok).1, (tblInv_reserved hnd hok).2⟩
+
+theorem reservedNames_nodup (tys : List String) (a : List (List (String × Nat))) (b : List String) :
+    (reservedNames tys a b).Nodup := by
+  unfold reservedNames; exact dedup_nodup _
+
+theorem graphProg_tbl (tys : List String) (o : Opts) (m : ModelP) (h : straightModel tys o m = true) (d indent : Nat) :
+    ∃ st', graphProg o (d + 1) m m.funName indent { uniq := reservedTable (reservedNames tys [m.opsets] []) } =
       .ok (["deco " ++ defaultOpsetArg o m.opsets,
-            "sig " ++ m.funName ++ "(" ++ comma (m.graph.inputs.map (pyT (finalTable o m))) ++ "|)"]
-            ++ m.graph.nodes.map (fun n => renderStmt indent (straightStmtF (pyT (finalTable o m)) o m.opsets n))
-            ++ [line indent ("return " ++ comma (m.graph.outputs.map (pyT (finalTable o m))))], st')
+            "sig " ++ m.funName ++ "(" ++ comma (m.graph.inputs.map (pyT (finalTable tys o m))) ++ "|)"]
+            ++ m.graph.nodes.map (fun n => renderStmt indent (straightStmtF (pyT (finalTable tys o m)) o m.opsets n))
+            ++ [line indent ("return " ++ comma (m.graph.outputs.map (pyT (finalTable tys o m))))], st')
       ∧ st'.skipped = [] := by
   have hnodes := straightModel_nodes h
   unfold straightModel at h
   simp only [Bool.and_eq_true, List.all_eq_true, bne_iff_ne, ne_eq, Bool.not_eq_true', List.isEmpty_iff,
     beq_iff_eq] at h
-  obtain ⟨⟨⟨⟨⟨⟨⟨⟨⟨⟨hr, hi⟩, hinits⟩, hsp⟩, _⟩, _⟩, _⟩, _⟩, _⟩, _⟩, _⟩ := h
-  have ht0 := tame_start
+  obtain ⟨⟨⟨⟨⟨⟨⟨⟨⟨⟨⟨hres, hr⟩, hi⟩, hinits⟩, hsp⟩, _⟩, _⟩, _⟩, _⟩, _⟩, _⟩, _⟩ := h
+  have ht0 := tame_start (reservedNames_nodup tys [m.opsets] []) hres
+    (m.graph.outputs ++ namesReadBy (d + 1) m.graph.nodes)
+  refine ⟨({ remaps := [], namesRead := m.graph.outputs ++ namesReadBy (d + 1) m.graph.nodes,
+             uniq := finalTable tys o m } : St), ?_, rfl⟩
+  simp only [finalTable_eq]
+  generalize reservedTable (reservedNames tys [m.opsets] []) = R at ht0 ⊢
   have ht1 := tame_run ht0 (m.graph.nodes.flatMap (reqOfNode o))
   have ht2 := tame_run ht1 m.graph.inputs
-  refine ⟨({ remaps := [], uniq := finalTable o m } : St), ?_, rfl⟩
   · unfold graphProg graphBody
     simp only [hinits, initsLoop, hsp, Nat.lt_irrefl, gt_iff_lt, if_false, List.nil_append,
       nodesLoop_tbl o hr hi m.opsets d indent m.graph.nodes _ ht0 hnodes,
-      translateVars_uniq o hr m.graph.inputs _ ht1.plain, translateVars_uniq o hr m.graph.outputs _ ht2.plain,
-      finalTable_eq]
+      translateVars_uniq o hr m.graph.inputs _ ht1.plain, translateVarRefs_uniq o hr m.graph.outputs _ ht2.plain]
     -- restate the body (table after the body) and the signature (table after the signature) with the final table
     have hbody : ∀ n ∈ m.graph.nodes,
-        renderStmt indent (straightStmtF (pyT (uniqRun [] (m.graph.nodes.flatMap (reqOfNode o)))) o m.opsets n) =
-        renderStmt indent (straightStmtF (pyT (uniqRun (uniqRun (uniqRun [] (m.graph.nodes.flatMap (reqOfNode o)))
+        renderStmt indent (straightStmtF (pyT (uniqRun R (m.graph.nodes.flatMap (reqOfNode o)))) o m.opsets n) =
+        renderStmt indent (straightStmtF (pyT (uniqRun (uniqRun (uniqRun R (m.graph.nodes.flatMap (reqOfNode o)))
           m.graph.inputs) m.graph.outputs)) o m.opsets n) := by
       intro n hn
-      congr 1
+      apply congrArg (renderStmt indent)
       apply straightStmtF_congr
       intro x hx
       rcases hx with hx | hx
-      · have hp : Present (uniqRun [] (m.graph.nodes.flatMap (reqOfNode o))) x :=
+      · have hp : Present (uniqRun R (m.graph.nodes.flatMap (reqOfNode o))) x :=
           present_uniqRun _ _ _ (List.mem_flatMap.mpr ⟨n, hn, names_in_req o m.opsets n (hnodes n hn) x hx⟩)
         exact (pyT_stable ((uniqRun_ext m.graph.inputs _).trans (uniqRun_ext m.graph.outputs _)) hp).symm
       · subst hx; rfl
-    have hsig : m.graph.inputs.map (pyT (uniqRun (uniqRun [] (m.graph.nodes.flatMap (reqOfNode o))) m.graph.inputs)) =
-        m.graph.inputs.map (pyT (uniqRun (uniqRun (uniqRun [] (m.graph.nodes.flatMap (reqOfNode o)))
+    have hsig : m.graph.inputs.map (pyT (uniqRun (uniqRun R (m.graph.nodes.flatMap (reqOfNode o))) m.graph.inputs)) =
+        m.graph.inputs.map (pyT (uniqRun (uniqRun (uniqRun R (m.graph.nodes.flatMap (reqOfNode o)))
           m.graph.inputs) m.graph.outputs)) :=
       (map_pyT_stable (uniqRun_ext m.graph.outputs _) m.graph.inputs
         (fun x hx => present_uniqRun m.graph.inputs _ x hx)).symm
     rw [List.map_congr_left hbody, hsig]
     rfl
 
-
-
 /-- **The string-level model of the exporter prints exactly `exportStraight` on the fragment** (every option
     tuple of the fragment, every nesting fuel ≥ 1). -/
-theorem exportModel_straight (o : Opts) (m : ModelP) (h : straightModel o m = true) (d : Nat) :
-    exportModel o (d + 1) m = .ok (renderProg (exportStraight o m)) := by
-  obtain ⟨s1, hg1, hk1⟩ := graphProg_tbl o m h d 1
-  obtain ⟨s2, hg2, hk2⟩ := graphProg_tbl o m h d 2
+theorem exportModel_straight (tys : List String) (o : Opts) (m : ModelP) (h : straightModel tys o m = true) (d : Nat) :
+    exportModelT tys o (d + 1) m = .ok (renderProg (exportStraight tys o m)) := by
+  obtain ⟨s1, hg1, hk1⟩ := graphProg_tbl tys o m h d 1
+  obtain ⟨s2, hg2, hk2⟩ := graphProg_tbl tys o m h d 2
   have h' := h
   unfold straightModel at h'
   simp only [Bool.and_eq_true, List.all_eq_true, bne_iff_ne, ne_eq, Bool.not_eq_true', List.isEmpty_iff,
     beq_iff_eq] at h'
   obtain ⟨⟨⟨⟨⟨⟨⟨⟨⟨⟨_, _⟩, _⟩, _⟩, _⟩, hname⟩, _⟩, _⟩, _⟩, _⟩, _⟩ := h'
-  unfold exportModel translateGraph
+  unfold exportModelT translateGraph
   simp only [hname, Bool.false_eq_true, if_false]
   cases hs : o.skipInit
   · simp only [Bool.false_eq_true, if_false, hg1, hk1, List.isEmpty_nil, if_true, Except.map, renderProg,
@@ -658,8 +696,8 @@ theorem stmtToNode_tbl (o : Opts) (opsets : List (String × Nat)) (n : Node)
       exact unPy_pyT hT x (hp x (List.mem_append_right _ hx))
 
 /-- every name of the graph has been requested by the end of the export -/
-theorem names_present (o : Opts) (m : ModelP) (h : straightModel o m = true) :
-    ∀ x ∈ namesOfGraph 0 m.graph, Present (finalTable o m) x := by
+theorem names_present (tys : List String) (o : Opts) (m : ModelP) (h : straightModel tys o m = true) :
+    ∀ x ∈ namesOfGraph 0 m.graph, Present (finalTable tys o m) x := by
   have hnodes := straightModel_nodes h
   have hinits : m.graph.inits = [] := by
     unfold straightModel at h
@@ -679,35 +717,49 @@ theorem names_present (o : Opts) (m : ModelP) (h : straightModel o m = true) :
     simp only [namesOfNode, List.mem_append] at hx
     exact List.mem_append.mpr hx.symm
 
+theorem straightModel_reserved {tys : List String} {o : Opts} {m : ModelP} (h : straightModel tys o m = true) :
+    reservedOk (reservedNames tys [m.opsets] []) = true := by
+  unfold straightModel at h
+  simp only [Bool.and_eq_true] at h
+  exact h.1.1.1.1.1.1.1.1.1.1.1
+
+theorem tblInv_finalTable {tys : List String} {o : Opts} {m : ModelP} (h : straightModel tys o m = true) :
+    TblInv (finalTable tys o m) := by
+  unfold finalTable
+  exact tblInv_uniqRun _ (tblInv_reserved (reservedNames_nodup tys [m.opsets] []) (straightModel_reserved h)).1
+
 /-- **The converter's reading of the exported program is the graph renamed by the final table.** -/
-theorem progToGraph_exportStraight (o : Opts) (m : ModelP) (h : straightModel o m = true) :
-    progToGraph (exportStraight o m) = renGraph (tblF (finalTable o m)) m.graph := by
+theorem progToGraph_exportStraight (tys : List String) (o : Opts) (m : ModelP) (h : straightModel tys o m = true) :
+    progToGraph (exportStraight tys o m) = renGraph (tblF (finalTable tys o m)) m.graph := by
   have hnodes := straightModel_nodes h
-  have hpres := names_present o m h
-  have hT : TblInv (finalTable o m) := tblInv_uniqRun _ tblInv_nil
+  have hpres := names_present tys o m h
+  have hT : TblInv (finalTable tys o m) := tblInv_finalTable h
   have h' := h
   unfold straightModel at h'
   simp only [Bool.and_eq_true, List.all_eq_true, bne_iff_ne, ne_eq] at h'
-  obtain ⟨⟨⟨⟨⟨⟨⟨⟨⟨⟨_, _⟩, _⟩, _⟩, hal⟩, _⟩, hin⟩, hout⟩, _⟩, _⟩, _⟩ := h'
+  obtain ⟨⟨⟨⟨⟨⟨⟨⟨⟨⟨⟨_, _⟩, _⟩, _⟩, _⟩, hal⟩, _⟩, hin⟩, hout⟩, _⟩, _⟩, _⟩ := h'
+  have hmap : m.graph.nodes.map (fun n => stmtToNode (m.opsets.map importOf)
+        (straightStmtF (pyT (finalTable tys o m)) o m.opsets n)) =
+      m.graph.nodes.map (renNode (tblF (finalTable tys o m))) := by
+    apply List.map_congr_left
+    intro n hn
+    exact stmtToNode_tbl o m.opsets n (hnodes n hn) hal hT
+      (fun x hx => hpres x (by
+        rcases List.mem_append.mp hx with hx | hx
+        · exact mem_names_of_node_out hn hx
+        · exact mem_names_of_node_in hn hx))
+  generalize hF : finalTable tys o m = T at hmap ⊢
   unfold progToGraph exportStraight renGraph
-  simp only [List.map_map, map_pyT_eq_tblF m.graph.outputs hout, map_pyT_eq_tblF m.graph.inputs hin]
-  congr 1
-  apply List.map_congr_left
-  intro n hn
-  exact stmtToNode_tbl o m.opsets n (hnodes n hn) hal hT
-    (fun x hx => hpres x (by
-      rcases List.mem_append.mp hx with hx | hx
-      · exact mem_names_of_node_out hn hx
-      · exact mem_names_of_node_in hn hx))
+  simp only [hF, List.map_map, Function.comp_def, map_pyT_eq_tblF m.graph.outputs hout,
+    map_pyT_eq_tblF m.graph.inputs hin, hmap]
 
 /-- the final table is a usable renaming on the names of the graph — **no hypothesis on the names** -/
-theorem goodRen_finalTable (o : Opts) (m : ModelP) (h : straightModel o m = true) :
-    GoodRen (tblF (finalTable o m)) (namesOfGraph 0 m.graph) := by
-  have hpres := names_present o m h
-  have hT : TblInv (finalTable o m) := tblInv_uniqRun _ tblInv_nil
-  have hemp : (finalTable o m).lookup "" = none := lookup_empty_uniqRun _ rfl
-  have hfe : tblF (finalTable o m) "" = "" := by unfold tblF; rw [hemp]; rfl
-  have hne : ∀ a ∈ namesOfGraph 0 m.graph, a ≠ "" → tblF (finalTable o m) a ≠ "" := by
+theorem goodRen_finalTable (tys : List String) (o : Opts) (m : ModelP) (h : straightModel tys o m = true) :
+    GoodRen (tblF (finalTable tys o m)) (namesOfGraph 0 m.graph) := by
+  have hpres := names_present tys o m h
+  have hT : TblInv (finalTable tys o m) := tblInv_finalTable h
+  have hfe : tblF (finalTable tys o m) "" = "" := by unfold tblF; simp
+  have hne : ∀ a ∈ namesOfGraph 0 m.graph, a ≠ "" → tblF (finalTable tys o m) a ≠ "" := by
     intro a ha hane
     rw [← pyT_eq_tblF hane]
     exact pyT_ne_empty hT hane (hpres a ha)
@@ -788,14 +840,29 @@ theorem graphBody_unfoldInits (o : Opts) (rec : Node → St → R) (g : Graph) (
       | error e => rfl
       | ok r2 => rfl
 
-theorem exportModel_unfoldInits (o : Opts) (d : Nat) (m : ModelP)
+theorem namesReadBy_inits (d : Nat) (inits : List (String × Nat × Nat × List Nat × Bool × String)) (nodes : List Node) :
+    namesReadBy d (inits.map initNode ++ nodes) = namesReadBy d nodes := by
+  induction inits with
+  | nil => rfl
+  | cons i rest ih =>
+    cases d with
+    | zero =>
+      simp only [List.map_cons, List.cons_append, namesReadBy, List.flatMap_cons, initNode, Node.ins, List.nil_append]
+        at ih ⊢
+      exact ih
+    | succ d =>
+      simp only [List.map_cons, List.cons_append, namesReadBy, List.flatMap_cons, initNode, Node.ins, Node.attrs,
+        List.nil_append, List.flatMap_nil, List.append_nil] at ih ⊢
+      exact ih
+
+theorem exportModel_unfoldInits (tys : List String) (o : Opts) (d : Nat) (m : ModelP)
     (h : noneSkipped o m.graph = true) (hs : m.graph.nSparse = 0) :
-    exportModel o d m = exportModel o d m.unfoldInits := by
+    exportModelT tys o d m = exportModelT tys o d m.unfoldInits := by
   have hb : ∀ rec st, graphBody o rec m.graph st = graphBody o rec (initsAsNodes m.graph) st :=
     fun rec st => graphBody_unfoldInits o rec m.graph st h hs
-  unfold exportModel translateGraph graphProg
-  simp only [ModelP.unfoldInits, ModelP.funName, hb]
-  rfl
+  unfold exportModelT translateGraph graphProg
+  simp only [ModelP.unfoldInits, ModelP.funName, hb, initsAsNodes, Graph.nodes, Graph.outputs, Graph.inputs,
+    namesReadBy_inits]
 
 
 end OV.C13
